@@ -43,11 +43,25 @@ def snap_econ(m):
     return d
 
 
+def _kind(ev):
+    from boario import event as bev
+    if isinstance(ev, bev.EventKapitalRebuild):
+        return "rebuild"
+    if isinstance(ev, bev.EventKapitalRecover):
+        return "recovery"
+    if isinstance(ev, bev.EventArbitraryProd):
+        return "arbitrary"
+    return "other"
+
+
 def snap_tracker(tr):
     def df(x):
         return None if x is None else np.array(x.values, dtype=float, copy=True)
 
-    return dict(
+    ev = tr.event
+    kind = _kind(ev)
+    d = dict(
+        kind=kind, occ=int(ev.occurrence), dur=int(ev.duration),
         status=tr._status,
         rid=tr._rebuild_id,
         dmg=df(tr._indus_dmg),
@@ -55,7 +69,29 @@ def snap_tracker(tr):
         arb=df(tr._prod_delta_from_arb),
         rem_i=df(tr._distributed_reb_dem_indus),
         rem_h=df(tr._distributed_reb_dem_house),
+        dmg0=df(tr._indus_dmg_0), hdmg0=df(tr._house_dmg_0), arb0=df(tr._prod_delta_from_arb_0),
     )
+    if kind == "rebuild":
+        d["tau"] = ev.rebuild_tau if ev.rebuild_tau else tr.sim.model.rebuild_tau
+        d["phi"] = float(ev.rebuilding_factor)
+    return d
+
+
+def oracle_recovery(tr, t):
+    """What the event's own recovery callable returns at this step, per ledger."""
+    ev = tr.event
+    e = t - (ev.occurrence + ev.duration)
+    out = {"e": int(e)}
+    try:
+        if hasattr(tr, "_recovery_function_indus") and tr._indus_dmg_0 is not None:
+            out["d"] = np.array(tr._recovery_function_indus(e), dtype=float)
+        if hasattr(tr, "_recovery_function_house") and tr._house_dmg_0 is not None:
+            out["h"] = np.array(tr._recovery_function_house(e), dtype=float)
+        if hasattr(tr, "_recovery_function_arb_delta") and tr._prod_delta_from_arb_0 is not None:
+            out["a"] = np.array(tr._recovery_function_arb_delta(e), dtype=float)
+    except Exception as ex:  # noqa: BLE001
+        out["error"] = repr(ex)
+    return out
 
 
 def snap_trackers(sim):
@@ -105,7 +141,14 @@ class Tap:
             tap.cur["ev_pre"] = snap_trackers(sim)
             tap.cur["econ_pre_events"] = snap_econ(m)
             tap.cur["phases"].append("events")
-            o_che()
+            try:
+                o_che()
+            except Exception as ex:  # noqa: BLE001
+                tap.cur["ev_error"] = {"class": type(ex).__name__, "msg": str(ex)[:200]}
+                tap.cur["ev_post"] = snap_trackers(sim)
+                tap.cur["econ_post_events"] = snap_econ(m)
+                raise
+            tap.cur["ev_error"] = None
             tap.cur["ev_post"] = snap_trackers(sim)
             tap.cur["econ_post_events"] = snap_econ(m)
 
@@ -160,6 +203,7 @@ class Tap:
         def reb():
             tap.cur["reb_pre"] = snap_trackers(sim)
             tap.cur["reb_pre_nE"] = int(m._n_rebuilding_events)
+            tap.cur["reb_rprod"] = _arr(m._rebuild_prod)
             tap.cur["phases"].append("rebuild")
             o_reb()
             tap.cur["reb_post"] = snap_trackers(sim)
@@ -171,6 +215,9 @@ class Tap:
 
         def rec():
             tap.cur["rec_pre"] = snap_trackers(sim)
+            tap.cur["rec_oracle"] = [oracle_recovery(tr, int(sim.current_temporal_unit))
+                                     if tr._status == "recovering" else None
+                                     for tr in sim._event_tracking]
             tap.cur["phases"].append("recover")
             o_rec()
             tap.cur["rec_post"] = snap_trackers(sim)
